@@ -117,7 +117,7 @@ def parseBlock (ws : List String) : Option Block := do
          timestamp := ← kvInt ws "ts", pubkey := ← kvHex ws "pk", preHash := ← kvHex ws "ph", merkleRoot := ← kvHex ws "mr",
          failedTxs := ← (kv ws "ft").bind parseFailed, curTerm := ← kvInt ws "ct", curBlockNum := ← kvInt ws "cb",
          targetBits := ← kvInt ws "tb", justify := ← (kv ws "j").bind parseJustify,
-         blockid := [], sign := [], height := 0, txids := [] }
+         blockid := [], sign := [], height := 0, txids := [], carried := [] }
 
 /-! ### vb -/
 
@@ -254,7 +254,19 @@ def mutate1 (p : Base) (b : Block) (a : List String) : Option Block :=
       | some x => some { b with failedTxs := (k0, m0.dropLast) :: (k1, x :: m1) :: rest }
       | none => none
     | _ => none
-  | ["mtree"] => if b.txids.isEmpty then none else some b
+  | ["mtree"] =>
+    match b.carried.getLast? with
+    | none => none
+    | some v => some { b with carried := b.carried.dropLast ++ [v.map flipLast] }
+  | ["droptree"] => if b.carried.isEmpty then none else some { b with carried := [] }
+  | ["fixleaves"] =>
+    -- the leaves of the carried tree rewritten to the (tampered) body, inner nodes and root kept
+    if b.carried.isEmpty then none else
+    some { b with carried := (b.txids.take b.carried.length).map some ++ b.carried.drop b.txids.length }
+  | ["fixtree"] =>
+    -- the whole carried tree recomputed from the (tampered) body, the signed root put back on top
+    if b.carried.isEmpty || b.txids.isEmpty then none else
+    some { b with carried := (merkleTree sym.H b.txids).dropLast ++ [some b.merkleRoot] }
   | ["txaddnil"] => some { b with txids := b.txids ++ [[]] }
   | ["pkother"] => some { b with pubkey := sym.pubJson (p.k + 1) }
   | ["signother"] => some { b with sign := sym.signWith (p.k + 1) b.blockid }
